@@ -265,7 +265,13 @@ SKIP_NAMES = {"clone", "fmt", "default", "go", "go_emit", "go_check", "next", "m
 def in_scope_bodies(facts):
     out = []
     for b in facts.bodies:
-        if b["kind"] == "Closure" or b.get("from_expansion"):
+        if b["kind"] == "Closure":
+            continue
+        # the Default values of the run-time configuration structs ("inherit the static setting")
+        if b.get("impl_trait") == "std::default::Default" and re.search(r"Cfg\[std::default::Default\]::default$", b["qname"]):
+            out.append(b)
+            continue
+        if b.get("from_expansion"):
             continue
         if not IN_SCOPE.match(b["qname"]) or b["name"] in SKIP_NAMES:
             continue
@@ -288,7 +294,7 @@ def compute_all(facts):
 SCOPES = {
     "C01": r"^Parser::(then|ignore_then|then_ignore|delimited_by|padded_by|or|or_not|not|and_is|rewind|map|map_with|to|ignored|to_slice|to_span|filter|"
            r"try_map|try_map_with|unwrapped|validate|boxed|from_str|padded)$|^primitive::(any|any_ref|choice|custom|empty|end|group|just|none_of|one_of|select|select_ref)$",
-    "C02": r"^Parser::(repeated|separated_by|foldl|foldl_with|into_iter)$|^IterParser::|^combinator::(Repeated|SeparatedBy|RepeatedCfg)::",
+    "C02": r"^Parser::(repeated|separated_by|foldl|foldl_with|into_iter)$|^IterParser::|^combinator::(Repeated|SeparatedBy|RepeatedCfg)::|^combinator::\w+Cfg\[std::default::Default\]::default$",
     "C03": r"^Parser::lazy$",
     "C07": r"^Parser::(to_slice|to_span|map_with)$|^input::Input::",
     "C08": r"^recovery::|^Parser::recover_with$",
@@ -297,7 +303,7 @@ SCOPES = {
     "C11": r"^Parser::memoized$",
     "C12": r"^recursive::",
     "C14": r"^text::|^number::|^regex::|^Parser::padded$",
-    "C15": r"^Config(Iter)?Parser::|^Parser::(with_ctx|ignore_with_ctx|then_with_ctx)$|^primitive::(map_ctx|JustCfg::)|^combinator::RepeatedCfg::",
+    "C15": r"^Config(Iter)?Parser::|^Parser::(with_ctx|ignore_with_ctx|then_with_ctx)$|^primitive::(map_ctx|JustCfg::)|^combinator::RepeatedCfg::|Cfg\[std::default::Default\]::default$",
     "C16": r"^Parser::nested_in$|^input::Input::",
     "C17": r"^Parser::(labelled|map_err|map_err_with_state)$|^label::Labelled::",
     "C18": r"^Parser::with_state$",
